@@ -35,7 +35,7 @@ func init() {
 		Rule:           "runs = 10-40 server-authorization posts (new, duplicate with changed ports or location, ban, un-ban attempt, bad / foreign signature, before registration) to 1-3 mutually forwarding servers with peers up or down, each server's list compared with its model after every post; then 6-20 client sync rounds against real servers (lists, GCA-signed migration orders) and a rogue server (orders for another device, outer signature by a foreign or the new GCA, inner signatures by the old GCA, replays of non-banned entries, valid relayed orders) with client restarts; after every round the client's GCA, id and server map are compared with the model of the signature rules, the three files must decode to exactly the adopted state and a restart must resume with it; non-trivial = at least one ban was learned and one migration order (valid or forged) was presented; distinct = distinct decision signatures",
 		Real:           []string{"AuthorizedServersHandler GET/POST incl. forwarding to peers", "EquipmentMigrateHandler", "sync handler", "client sync round: parser, merge, migration adoption, persistence; client start-up load"},
 		Stub:           []string{"rogue server (harness, holding a configured server's key)", "TCP/HTTP (simulated fabric)"},
-		RequiredProbes: []string{"c17.srv.ban", "c17.srv.unban-attempt", "c17.srv.changed-ports", "c17.srv.forwarded", "c17.cli.ban-learned", "c17.cli.migration-adopted", "c17.cli.forged-order", "c17.cli.restart", "c17.cli.unban-replay", "c17.cli.forged-dup-entry", "c17.srv.altered-after-signing"},
+		RequiredProbes: []string{"c17.srv.ban", "c17.srv.unban-attempt", "c17.srv.changed-ports", "c17.srv.forwarded", "c17.cli.ban-learned", "c17.cli.migration-adopted", "c17.cli.forged-order", "c17.cli.restart", "c17.cli.unban-replay", "c17.cli.forged-dup-entry", "c17.srv.altered-after-signing", "c17.cli.order-without-usable-server"},
 		RequiredSites:  []string{"srvauth.between", "csync.premerge", "csync.postmerge"},
 	})
 }
@@ -306,7 +306,15 @@ func runC17(m *Sim) {
 			}
 		case 2:
 			if model.gca == gca.Pub {
-				em := SignMigration(gca, server.EquipmentMigration{Equipment: dev.Key.Pub, NewGCA: newGCA.Pub, NewShortID: newID, NewServers: []server.AuthorizedServer{newEntry}})
+				// The new list: the new GCA's server; that server already banned; both;
+				// or nothing at all (every one a valid order).
+				bannedNew := SignServer(newGCA, server.AuthorizedServer{PublicKey: nn.Key.Pub, Banned: true, Location: nn.Loc, HttpPort: nn.HTTP, TcpPort: nn.TCP, UdpPort: nn.UDP})
+				bannedOther := SignServer(newGCA, server.AuthorizedServer{PublicKey: Key("ns-banned").Pub, Banned: true, Location: "nsb.sim", HttpPort: 7, TcpPort: 7, UdpPort: 7})
+				list := [][]server.AuthorizedServer{{newEntry}, {newEntry, bannedOther}, {bannedNew}, {bannedOther}, {}}[m.C.Weighted("new-list", 5, 2, 1, 1, 1)]
+				if len(list) == 0 || (len(list) == 1 && list[0].Banned) {
+					m.Probe("c17.cli.order-without-usable-server")
+				}
+				em := SignMigration(gca, server.EquipmentMigration{Equipment: dev.Key.Pub, NewGCA: newGCA.Pub, NewShortID: newID, NewServers: list})
 				nodes[m.C.Int("where", len(nodes))].DoMigrate(em)
 				orders++
 			}
@@ -438,7 +446,8 @@ func runC17(m *Sim) {
 			}
 			m.NoteState(RoleOf(model.gca), model.id, len(model.servers), nb)
 		} else {
-			compareState("failed-round")
+			// A round that fails adopts nothing and persists nothing.
+			compare("failed-round")
 			// After a migration the device must be able to talk to the servers
 			// of the GCA it moved to (the only one here is honest and up).
 			if model.gca == newGCA.Pub && len(model.servers) == 1 && !model.servers[nn.Key.Pub].Banned && nn.Up {
